@@ -20,6 +20,8 @@ const OPS: &[&str] = &[
     "SET k a", "SET k b", "SET k c NX", "SET k d XX", "SET k e EX 100", "SET k f GET", "DEL k", "INCR k", "INCRBY k 5", "APPEND k x", "GETSET k g",
     "HSET k f a", "HSET k f b g c", "HDEL k f", "HINCRBY k n 1", "SET k 1", "DEL k j", "SET j z",
     "SET k h NX GET", "SET k i XX GET", "SET k m KEEPTTL", "SET k p XX EX 100",
+    // the remaining commands of the replicated set (every command record_mutation_post_execute knows is in the alphabet)
+    "DECR k", "DECRBY k 2",
 ];
 const MAX_DELTAS: usize = 4;
 
